@@ -9,9 +9,13 @@ through the real engine, and the observed marker sequence / error class is compa
 """
 from __future__ import annotations
 
+import asyncio
+import gc
 import json
 import random
 import re
+import signal
+import time
 
 from ..core import Check, fresh_repo_imports, seed
 from ..tlcrun import run_tlc, run_many
@@ -26,12 +30,13 @@ NAMES = [{"a": "a", "b": "b", "c": "c"},
          {"a": "b", "b": "c", "c": "a"},
          {"a": "x-1", "b": "a", "c": "block"}]
 TNAMES = [lambda i: f"t{i}", lambda i: f"layouts/level {i}.html", lambda i: "abcd"[i - 1]]
+# transparent wrappers (body rendered once) and two-item loops; @ is a variable name unique to the wrapper's position
 ONCE = [("{% if true %}", "{% endif %}"), ("{% unless false %}", "{% endunless %}"),
-        ("{% case 1 %}{% when 1 %}", "{% endcase %}"), ("{% with zz: 1 %}", "{% endwith %}"),
-        ("{% capture zz %}", "{% endcapture %}{{ zz }}"), ("{% if false %}{% else %}", "{% endif %}"),
-        ("{% for zz in nothing %}{% else %}", "{% endfor %}"), ("{% if zz == nil and true %}", "{% endif %}")]
-TWICE = [("{% for zz in (1..2) %}", "{% endfor %}"), ("{% for zz in pair %}", "{% endfor %}"),
-         ("{% for zz in pair reversed %}", "{% endfor %}"), ("{% for zz in (1..5) limit: 2 %}", "{% endfor %}")]
+        ("{% case 1 %}{% when 1 %}", "{% endcase %}"), ("{% with @: 1 %}", "{% endwith %}"),
+        ("{% capture @ %}", "{% endcapture %}{{ @ }}"), ("{% if false %}{% else %}", "{% endif %}"),
+        ("{% for @ in nothing %}{% else %}", "{% endfor %}"), ("{% if @ == nil and true %}", "{% endif %}")]
+TWICE = [("{% for @ in (1..2) %}", "{% endfor %}"), ("{% for @ in pair %}", "{% endfor %}"),
+         ("{% for @ in pair reversed %}", "{% endfor %}"), ("{% for @ in (1..5) limit: 2 %}", "{% endfor %}")]
 
 
 def concretize(case, variant):
@@ -61,9 +66,9 @@ def concretize(case, variant):
             elif k == "Bc":
                 src.append(f"{{% endblock {nm[tok['n']]} %}}" if tok["n"] else "{% endblock %}")
             elif k == "Fo":
-                src.append(TWICE[(variant + p) % len(TWICE)][0])
+                src.append(TWICE[(variant + p) % len(TWICE)][0].replace("@", f"z{i}_{p}"))
             elif k == "Io":
-                src.append(ONCE[(variant + p) % len(ONCE)][0])
+                src.append(ONCE[(variant + p) % len(ONCE)][0].replace("@", f"z{i}_{p}"))
             elif k in ("Fc", "Ic"):
                 # the opener's spelling was chosen from its own position
                 depth, j = 0, p - 1
@@ -77,26 +82,74 @@ def concretize(case, variant):
                         depth -= 1
                     j -= 1
                 table = TWICE if k == "Fc" else ONCE
-                src.append(table[(variant + j) % len(table)][1])
+                src.append(table[(variant + j) % len(table)][1].replace("@", f"z{i}_{j}"))
         out[tn(i)] = "".join(src)
     return out, tn(1), data
 
 
+class _Hang(BaseException):     # BaseException: the library's `except Exception` handlers must not swallow the alarm
+    pass
+
+
+_hangs = 0
+_loop = None
+
+
+def guarded(fn, budget):
+    """fn() under a CPU-time alarm (ITIMER_VIRTUAL, re-checked against process_time: under heavy machine load the
+    timer was seen to fire early). A walk up the chain that never ends becomes a verdict instead of a stuck check."""
+    st = {"armed": True, "t0": time.process_time()}
+
+    def on_alarm(signum, frame):
+        if st["armed"] and time.process_time() - st["t0"] >= budget:
+            raise _Hang()
+    signal.signal(signal.SIGVTALRM, on_alarm)
+    signal.setitimer(signal.ITIMER_VIRTUAL, budget, 0.5)     # repeating: a firing swallowed inside a GC callback is followed by another
+    try:
+        try:
+            return fn()
+        finally:
+            st["armed"] = False
+    except _Hang:
+        return {"err": "HANG", "liquid": False}
+    finally:
+        st["armed"] = False
+        signal.setitimer(signal.ITIMER_VIRTUAL, 0)
+
+
 def observe(env, leaf, data, how, direct_source=None):
-    """What a caller sees (under a CPU-time alarm: a walk up the chain that never ends is a verdict, not a stuck check)."""
-    from . import c09
-    return c09.timed(lambda: _observe(env, leaf, data, how, direct_source), budget=ALARM)
+    """What a caller sees: the marker sequence of the output, or the error class (or HANG)."""
+    global _hangs, _loop
+    if _hangs >= 3:                    # this worker has established the violation; do not spend minutes on every further case
+        return {"err": "SKIPPED", "liquid": True}
+    o = guarded(lambda: _observe(env, leaf, data, how, direct_source), ALARM)
+    if o.get("err") == "HANG":         # confirm alone with a generous budget
+        _loop = None
+        o = guarded(lambda: _observe(env, leaf, data, how, direct_source), 3 * ALARM)
+        if o.get("err") == "HANG":
+            _loop = None
+            _hangs += 1
+    return o
+
+
+def _run_async(coro):
+    global _loop
+    if _loop is None or _loop.is_closed():
+        _loop = asyncio.new_event_loop()
+    return _loop.run_until_complete(coro)
 
 
 def _observe(env, leaf, data, how, direct_source=None):
-    """The marker sequence of the output, or the error class."""
     try:
         t = env.from_string(direct_source, name=leaf) if direct_source is not None else env.get_template(leaf)
     except Exception as e:
         o = harness.classify(e)
         o["phase"] = "load"
         return o
-    o = harness.render(t, data, how)
+    try:
+        o = {"out": t.render(**data) if how == "sync" else _run_async(t.render_async(**data))}
+    except Exception as e:
+        o = harness.classify(e)
     if "out" in o:
         ms = MARK.findall(o["out"])
         o["seq"] = [int(a) * 100 + int(b) for a, b in ms]
@@ -172,7 +225,8 @@ def _sig(case, why):
 
 INVARIANTS = ["MostDerived", "SuperIsNextUp", "NestedBlocksResolvedAgain", "NothingAfterExtendsOutsideBlocks",
               "RequiredUnlessOverridden", "CircularDetected", "DuplicateRejected", "EndblockMismatchRejected",
-              "MechanismMeetsRequirement", "DepthLimitOnlyWhenIllFounded", "StacksFollowChain", "WalkBounded", "ChkIsStructural"]
+              "MechanismMeetsRequirement", "DepthLimitOnlyWhenIllFounded", "StacksFollowChain", "WalkBounded", "DirectOnlyWithoutExtends",
+              "RequiredIsOwnFlag", "ChkIsStructural"]
 ACTIONS = ["AddBlock", "AddSuper", "AddExtra", "OpenWrap", "Close", "CloseMismatch", "NextTemplate", "Finish",
            "EndblockMismatchLeaf", "LoadLeaf", "Duplicate", "StackTemplate", "ReachBase", "Circular", "EndblockMismatch",
            "FollowExtends", "RenderText", "DuplicateDirect", "RequiredError", "RenderBlock", "Super", "EnterWrap", "EndFrame",
@@ -195,17 +249,24 @@ def run(tier: str) -> int:
         "spellings, get_template vs from_string leaf) and rendered sync+async with Environment(extra=True)"
         % ((3, 2, 3, "one of {extra item, required flag, anomaly}") if q else (4, 3, 4, "two of {extra item, required flag, anomaly}")))
     main_cfg = f"cfg/Inherit_{tier}.cfg"
-    jobs = [("Inherit", main_cfg, dict(workers=12, timeout=2400)),
-            ("Inherit", "cfg/Inherit_live.cfg", dict(workers=2, timeout=900, coverage=True)),
-            ("Inherit", "cfg/Inherit_illfounded.cfg", dict(workers=2, timeout=900, coverage=True)),
+    jobs = [("Inherit", main_cfg, dict(workers=8 if q else 14, timeout=2400)),
+            ("Inherit", "cfg/Inherit_live.cfg", dict(workers=2, timeout=900)),
+            ("Inherit", "cfg/Inherit_illfounded.cfg", dict(workers=2, timeout=900)),
             ("Inherit", "cfg/Inherit_deviation.cfg", dict(workers=1, timeout=900, expect_violation=True)),
-            ("Inherit", "cfg/Inherit_deep.cfg", dict(workers=2, timeout=1800, simulate="num=%d" % (500 if q else 20000), depth=400,
-                                                     seed=seed() or 18))]
-    rmain, rlive, rill, rdev, rdeep = run_many(jobs, parallel=5)
+            ("Inherit", "cfg/Inherit_deep.cfg", dict(workers=1, timeout=1800, simulate="num=%d" % (300 if q else 8000), depth=400,
+                                                     seed=seed() or 18)),
+            ("Inherit", "cfg/Inherit_deeperr.cfg", dict(workers=1, timeout=1800, simulate="num=%d" % (300 if q else 8000), depth=400,
+                                                        seed=seed() or 18))]
+    rmain, rlive, rill, rdev, rdeep, rdeep2 = run_many(jobs, parallel=6)
     ck.tlc("Inherit_" + tier, rmain)
     ck.tlc("Inherit_live (Terminates under WF)", rlive)
     ck.tlc("Inherit_illfounded (chains whose rendering reaches a definition from itself; Terminates under WF)", rill)
-    ck.tlc("Inherit_deep (simulate)", rdeep)
+    ck.tlc("Inherit_deep (simulate, well-formed chains up to 8 blocks, nesting 3)", rdeep)
+    ck.tlc("Inherit_deeperr (simulate, with required flags and one anomaly)", rdeep2)
+    rdeep.emitted += rdeep2.emitted
+    if rdeep2.violated:
+        rdeep.violated = rdeep2.violated
+        rdeep.out = rdeep2.out
     for nm, r in (("exhaustive", rmain), ("liveness", rlive), ("ill-founded", rill), ("simulate", rdeep)):
         if r.violated:
             ck.fail(f"Inherit.tla {r.violated} violated ({nm})", {"tlc": r.out[-3000:]})
@@ -216,9 +277,13 @@ def run(tier: str) -> int:
     if rdev.violated != "DuplicateRejected":
         ck.fail("Inherit_deviation.cfg: the NoDupCheckWhenDirect mechanism should violate DuplicateRejected, got %r" % rdev.violated,
                 {"tlc": rdev.out[-2000:]})
-    taken = {a: rlive.coverage.get(a, (0, 0))[1] + rill.coverage.get(a, (0, 0))[1] for a in ACTIONS}
+    # vacuity: every action of the specification occurs in some emitted behaviour (the spec records the actions it took)
+    taken = {a: 0 for a in ACTIONS}
+    for c in rmain.emitted + rill.emitted + rdeep.emitted:
+        for a in c.pop("acts"):
+            taken[a] += 1
     never = [a for a, n in taken.items() if n == 0]
-    ck.cov["actions_taken(live+illfounded)"] = taken
+    ck.cov["chains_taking_action"] = taken
     if never:
         ck.fail("vacuous: actions of Inherit.tla never taken: " + ", ".join(never), {})
 
@@ -231,10 +296,15 @@ def run(tier: str) -> int:
     cap = 40000 if q else 400000
     if len(cases) > cap:
         cases = rnd.sample(cases, cap)
-    nv = 2 if q else 3
+    nv = 2
     work = [(c, (i * 5 + v * 7) % 60) for i, c in enumerate(cases) for v in range(nv)]
     work += [(c, (i * 3 + v * 11) % 60) for i, c in enumerate(deep) for v in range(2)]
-    res = par.pmap(replay_one, work, chunk=256)
+    gc.collect()
+    gc.freeze()        # the forked workers' collector must not walk (and so copy) the parent's heap of emitted cases
+    try:
+        res = par.pmap(replay_one, work, chunk=256)
+    finally:
+        gc.unfreeze()
     kinds = {}
     for (case, variant), (tmpl, leaf, data, rr) in zip(work, res):
         feats = features(case)
